@@ -372,7 +372,17 @@ func runX5(p *an.Prog, r *an.Result) {
 				}
 				numIn := func(v ssa.Value) bool {
 					c := an.CallOf(v)
-					return c != nil && an.CallName(c) == "(reflect.Type).NumIn"
+					if c != nil && an.CallName(c) == "(reflect.Type).NumIn" {
+						return true
+					}
+					// the count kept in a field that is only ever filled from NumIn()
+					st := fieldStoresOf(p, v)
+					for _, s := range st {
+						if sc := an.CallOf(s.Val); sc == nil || an.CallName(sc) != "(reflect.Type).NumIn" {
+							return false
+						}
+					}
+					return len(st) > 0
 				}
 				return (b.Op == token.GTR && lenArgs(b.X) && numIn(b.Y)) || (b.Op == token.LSS && numIn(b.X) && lenArgs(b.Y))
 			}
@@ -1544,7 +1554,7 @@ func runX16(p *an.Prog, r *an.Result) {
 			r.Bad("-", root+" not found", token.NoPos, "anchor not resolved")
 			continue
 		}
-		for _, f := range unitWithHelpers(p, fn) {
+		for _, f := range unitWithHelpersDepth(p, fn, 4) {
 			if done[f] {
 				continue
 			}
